@@ -5,6 +5,7 @@ import sys,subprocess,shutil,os,json,tempfile,glob,concurrent.futures
 here=os.path.dirname(os.path.dirname(os.path.abspath(__file__)))
 env=dict(os.environ, GOFLAGS="-mod=mod", GOPROXY="off", GOSUMDB="off", GOTOOLCHAIN="local", GOWORK="off")
 reg=sorted({l.split()[0] for l in subprocess.check_output([os.environ.get("ANYCHECK",here+"/bin/anycheck"),"-list"],text=True).splitlines()})
+if os.environ.get("ANYCHECK_PROPS"): reg=[p for p in reg if p in os.environ["ANYCHECK_PROPS"].split(",")]  # delta runs after a change to the rules of a few properties
 dirs=sys.argv[1:] or sorted(d for d in glob.glob(here+"/benign/*") if os.path.isdir(d))
 def one(dname):
     patch=os.path.abspath(os.path.join(dname,"patch.diff"))
